@@ -99,6 +99,7 @@ type result struct {
 	lnB                  *quic.Listener
 	serverTLS            func() *tls.Config
 	tap                  *tapState
+	unreleasable         bool
 	causeDone            chan struct{} // closed when doCause has finished (edge phase: it runs in the Dial / Accept goroutine)
 	nmu                  sync.Mutex
 	finalNow             time.Duration
@@ -634,8 +635,20 @@ func runCase(c Case, res *result) {
 		if res.trB != nil {
 			res.trB.Close()
 		}
-		wg.Wait()
+		// every goroutine of the scenario must be gone now; one that is not (a call nothing can release) is reported
+		// and left behind - the bubble then cannot end, which checkCase turns into the verdict already found
 		synctest.Wait()
+		for _, e := range []*endpoint{res.C, res.S} {
+			for _, name := range e.pending() {
+				if !has(res.stuck, e.name+":"+name) {
+					res.stuck = append(res.stuck, e.name+":"+name)
+				}
+				res.unreleasable = true
+			}
+		}
+		if !res.unreleasable {
+			wg.Wait()
+		}
 		res.finalNow = w.Router.Now()
 		w.Close()
 		res.log = w.Router.Trace(1 << 30)
